@@ -41,7 +41,7 @@ for id in "$@"; do
     echo "exit=${PIPESTATUS[0]}"
     continue
   fi
-  VERIF_ROOT="$root/verif" "$root/verif/check.sh" "$id" quick 2>&1 | tail -${MUT_TAIL:-6}
+  VERIF_ROOT="$root/verif" "$root/verif/check.sh" "$id" quick ${MUT_SEED:+--seed $MUT_SEED} 2>&1 | tail -${MUT_TAIL:-6}
   echo "exit=${PIPESTATUS[0]}"
 done
 rm -rf "$root"
